@@ -403,6 +403,8 @@ func check(prop, tier string) int {
 	var knownHits = map[string]int{}
 	var nondet []string
 	var trouble []string
+	var mapCrashes []string
+	workerRetries := 0
 	var wg sync.WaitGroup
 	for w := 0; w < workers; w++ {
 		wg.Add(1)
@@ -410,6 +412,28 @@ func check(prop, tier string) int {
 			defer wg.Done()
 			job := Job{Mode: "search", Prop: prop, Tier: tier, SeedBase: seed, From: w, Stride: workers, WallS: wall, SelfCheck: selfEvery, Known: knownSigs, PerVariant: perVariant}
 			lines, out, err := runWorker(bin, job, scratch, fmt.Sprintf("w%d", w), time.Duration(wall*6+120)*time.Second)
+			mapCrash := false
+			if meta.Race && err != nil && !hasSummary(lines) {
+				crash := filepath.Join(verifDir, "replays", fmt.Sprintf("crash-%s-w%d-first.txt", prop, w))
+				_ = os.MkdirAll(filepath.Dir(crash), 0o755)
+				_ = os.WriteFile(crash, []byte(out), 0o644)
+				if strings.Contains(out, "fatal error: concurrent map") {
+					// the Go runtime caught what the property forbids by name
+					mu.Lock()
+					mapCrashes = append(mapCrashes, crash)
+					mu.Unlock()
+					mapCrash = true
+				} else {
+					// a worker process that dies under the race detector (seen once in some
+					// 30 thorough batches: a fault inside the detector's own runtime, no Go
+					// panic, no report) is run again once; a second death is harness trouble
+					mu.Lock()
+					workerRetries++
+					mu.Unlock()
+					fmt.Fprintf(os.Stderr, "verifctl: worker w%d died (%v), output kept in %s; running it again\n", w, err, crash)
+					lines, out, err = runWorker(bin, job, scratch, fmt.Sprintf("w%d-retry", w), time.Duration(wall*6+120)*time.Second)
+				}
+			}
 			mu.Lock()
 			defer mu.Unlock()
 			gotSummary := false
@@ -418,7 +442,7 @@ func check(prop, tier string) int {
 					gotSummary = true
 				}
 			}
-			if err != nil && !(meta.Race && gotSummary) {
+			if err != nil && !(meta.Race && gotSummary) && !mapCrash {
 				// (under -race a worker that saw a race report exits 1 after finishing its runs)
 				// keep the whole output: the reason of a crash is at its beginning
 				crash := filepath.Join(verifDir, "replays", fmt.Sprintf("crash-%s-w%d.txt", prop, w))
@@ -448,7 +472,7 @@ func check(prop, tier string) int {
 					nondet = append(nondet, string(raw))
 				}
 			}
-			if !gotSummary && err == nil {
+			if !gotSummary && err == nil && !mapCrash {
 				trouble = append(trouble, fmt.Sprintf("worker %d wrote no summary\n%s", w, tail(out, 60)))
 			}
 		}(w)
@@ -519,7 +543,14 @@ func check(prop, tier string) int {
 	}
 
 	if meta.Race {
-		return finishRace(prop, tier, seed, meta, agg, scratch, kf, knownHere, start, workers)
+		agg.Probes["worker_processes_run_again_after_dying"] = workerRetries
+		rc := finishRace(prop, tier, seed, meta, agg, scratch, kf, knownHere, start, workers)
+		for _, c := range mapCrashes {
+			fmt.Printf("violation: runtime-crash:concurrent-map-access (the Go runtime ended the process: see the file)\n")
+			fmt.Printf("VIOLATION property=%s replay=%s\n", prop, c)
+			rc = 1
+		}
+		return rc
 	}
 	viols = append(regressViol, viols...)
 	agg.Probes["regression_tapes_replayed"] = regressRuns
@@ -588,6 +619,15 @@ func check(prop, tier string) int {
 	writeEvidence(prop, tier, seed, meta, agg, len(sigset), nNew, wallS, workers)
 	fmt.Printf("%s %s: %d runs (%d non-trivial, %d distinct behaviours), %d self-checks ok, %d new violation(s), %.1fs\n", prop, tier, agg.Runs, agg.NonTrivial, len(sigset), agg.SelfChecks, nNew, wallS)
 	return exit
+}
+
+func hasSummary(lines []map[string]json.RawMessage) bool {
+	for _, m := range lines {
+		if kind(m) == "summary" {
+			return true
+		}
+	}
+	return false
 }
 
 func head(s string, n int) string {
